@@ -15,7 +15,7 @@ TrHandlers == 1..64
 TrNone == {}
 TrVerdicts == {"PASS", "FAIL", "TIMEOUT", "SILENCE", "BYPASS", "T", "F"}
 TrReprs == {"uri", "strlist", "byteslist", "bytearraylist", "memviewlist", "wire"}
-TrEnvs == {"bare", "lp", "lph"}
+TrEnvs == {"bare", "lp", "lph", "lpo"}
 TrJunk == {"junk"}
 
 TInit == /\ tid \in 1..Len(Traces)
